@@ -2,6 +2,12 @@ HOOK_COMMITS = []
 TRUST = ("Trusted: CPython/NumPy/SciPy/Dask as installed, fractions/decimal, the short reference models under mc/oracle_*.py; "
          "nothing is claimed outside the enumerated alphabets (see evidence coverage and DESIGN.md section 3).")
 CHECKS = [
+    dict(id="C01", technique="bounded exhaustive enumeration (machines x samples x presentations) on the real code vs 60-digit Decimal mixture density",
+         text="Every machine of the enumerated product (components, features, template rotations, weight compositions, four floor kinds) scores every sample of the coordinate alphabet - bulk, tails up to 2^20 and non-dyadic values - alone, inside the batch and inside every row composition of a Dask array; each value is compared with a 60-digit Decimal evaluation of the naive normalised density (which cannot underflow), per component and for the mixture, and D=1 machines are integrated on a grid. Exhaustive within the alphabets.",
+         note=TRUST),
+    dict(id="C02", technique="bounded exhaustive enumeration (machines x data sets x every composition / set partition of the rows) on the real code vs Decimal responsibilities",
+         text="For every machine x data set the accumulated statistics are compared with moments computed from 60-digit Decimal responsibilities, and every composition of the rows (every set partition for n<=4) is accumulated block-wise and folded with +, += and reduce(iadd) and compared with the whole-set statistics, with operand purity, Dask layouts and the shape-mismatch refusal checked; exhaustive within the alphabets.",
+         note=TRUST),
     dict(id="C06", technique="bounded exhaustive enumeration (data x K x initial centroids x caps x thresholds x chunkings) on the real code vs exact rational Lloyd reference",
          text="Every k-means fit of the enumerated product is executed on the implementation and compared, iteration by iteration, with an exact Fraction model of Lloyd's algorithm (centroids, reported criterion, independent distortion, stopping iteration). Exhaustive within the stated alphabets; this is the level the property needs because the defects it guards against (criterion scaled per chunk, off-by-one stop) are value- and configuration-dependent, not schedule-dependent.",
          note=TRUST),
